@@ -862,11 +862,13 @@ class Partial:
                 as_written += [(pth(n), ident_text('duplicated value %r for %r' % ((dict((e[1], e[2]) for e in events)[n],), ident))
                                 if kind == 'dup' else "missing key field '@%s'" % attr) for kind, n in port]
                 if self.reqs is not None:
-                    real = sorted([('dup' if t.startswith('dup') else 'missing'), id_of.get(q, -1)]
-                                  for q, t in have if mine(t) and not KEYREF_TEXT.match(t))
+                    # ("missing key field" texts do not name their constraint: only the duplicates are attributed to it;
+                    #  the missing-field errors are compared in the aggregate below and, model side, with the python reading)
+                    real = sorted(['dup', id_of.get(q, -1)] for q, t in have if t.startswith('dup') and mine(t))
                     self.reqs.append({'op': 'identloop', 'key': is_key, 'j': j,
                                       'events': [{'chain': c, 'node': n, 'val': v} for c, n, v in events]})
-                    self.pend.append(('identloop', dict(case, api='iter_errors(path): identity loop', identity=name), real, None))
+                    self.pend.append(('identloop', dict(case, api='iter_errors(path): identity loop', identity=name), real,
+                                      sorted([k_, n_] for k_, n_ in port)))
         if sorted(want) == sorted(have):
             ctx.count('identity:' + ('same' if want else 'none'))
             if want:
@@ -1341,10 +1343,13 @@ def compare(ctx: Ctx, reqs: list, pend: list, drv: Optional[Driver]) -> None:
             ctx.count('model-tie:identity-loop')
             # the loop as it is written, or as repaired by C20-ancestors-first-difference.patch (they differ on
             # selections of mixed depth only: finding C20-F7, judged by check_identities)
-            if sorted(m['errs']) != real and sorted(m['errs_repaired']) != real:
-                ctx.mismatch('identity errors of the path-driven loop (loopC)', case, real, sorted(m['errs']))
-            elif sorted(m['errs']) != sorted(m['errs_repaired']):
-                ctx.count('model-tie:identity-loop:' + ('as-written' if sorted(m['errs']) == real else 'as-repaired'))
+            dups = lambda l: sorted(x for x in l if x[0] == 'dup')  # noqa
+            if sorted(m['errs']) != extra:
+                ctx.mismatch('python reading of loopC differs from the Lean model', case, extra, sorted(m['errs']))
+            if dups(m['errs']) != real and dups(m['errs_repaired']) != real:
+                ctx.mismatch('identity errors of the path-driven loop (loopC)', case, real, dups(m['errs']))
+            elif dups(m['errs']) != dups(m['errs_repaired']):
+                ctx.count('model-tie:identity-loop:' + ('as-written' if dups(m['errs']) == real else 'as-repaired'))
         elif kind == 'select':
             ctx.count('model-tie:iterfind')
             if m['ids'] != real:
